@@ -1269,7 +1269,7 @@ class Pool:
                         exitcode = exitcodes.get(acked_by_gone) or 0
                         proc = cleaned.get(acked_by_gone)
                         if proc and getattr(proc, '_job_terminated', False):
-                            job._set_terminated(exitcode)
+                            job._set_terminated(exitcode, all_pids)
                         elif not job._worker_lost:
                             # (a loss already noticed keeps its time
                             # and exit status)
@@ -1314,7 +1314,8 @@ class Pool:
                     human_status(exitcode), job._job),
             )
         except WorkerLostError:
-            job._set(None, (False, ExceptionInfo()))
+            job._set_lost((False, ExceptionInfo()),
+                          [w.pid for w in self._pool])
         else:  # pragma: no cover
             pass
 
@@ -1827,11 +1828,15 @@ class ApplyResult:
     def terminate(self, signum):
         self._terminated = signum
 
-    def _set_terminated(self, signum=None):
+    def _set_terminated(self, signum=None, alive_pids=()):
         try:
             raise Terminated(-(signum or 0))
         except Terminated:
-            self._set(None, (False, ExceptionInfo()))
+            self._set_lost((False, ExceptionInfo()), alive_pids)
+
+    def _set_lost(self, obj, alive_pids=()):
+        # the worker running this job is gone: `obj` is its outcome.
+        self._set(None, obj)
 
     def worker_pids(self):
         return [self._worker_pid] if self._worker_pid else []
@@ -2074,6 +2079,19 @@ class IMapIterator:
 
     def ready(self):
         return self._ready
+
+    def _set_terminated(self, signum=None, alive_pids=()):
+        try:
+            raise Terminated(-(signum or 0))
+        except Terminated:
+            self._set_lost((False, ExceptionInfo()), alive_pids)
+
+    def _set_lost(self, obj, alive_pids=()):
+        # workers are gone: `obj` is the outcome of the parts they had
+        # accepted and not finished, the other parts are not affected.
+        for i, pid in sorted(self._part_pids.items()):
+            if pid not in alive_pids:
+                self._set(i, obj)
 
     def worker_pids(self):
         # workers of the parts that are still unfinished.
